@@ -214,6 +214,9 @@ func propC06(rt *rapid.T, t *testing.T, c *ev.Collector) {
 	if a.valUnbondOK > 0 {
 		classes = append(classes, "validator-unbond-accepted")
 	}
+	if a.vaultClassProbed > 0 {
+		classes = append(classes, "slash-in-listed-vault-class:plain-delegators-checked-on-a-branch")
+	}
 	if a.batchOK > 0 {
 		classes = append(classes, "multi-message-tx-accepted")
 	}
